@@ -577,6 +577,7 @@ Not decided: doc-comment attribution (excluded by the property), nom's internals
         }
     }
     hyphen_runs(m, ctx);
+    balanced_scanner(m, ctx);
 }
 
 /// C13.hyphen: `--` opens a comment wherever it occurs outside a string, and a name never ends in a hyphen (X.680 12.2,
@@ -640,4 +641,126 @@ fn hyphen_runs(m: &Model, ctx: &mut Ctx) {
         }
     }
     ctx.extra.insert("hyphen_runs".into(), json!(sites.keys().collect::<Vec<_>>()));
+}
+
+/// C13.scan: block comments nest and end at the `*/` that balances them, whatever they contain. The scanner behind
+/// block_comment (take_until_unbalanced) is evaluated abstractly on comment bodies — with quotes, hyphens, nested
+/// comments, multi-byte characters, and an unterminated tail — and compared with the balance rule: only the two tags
+/// change the nesting level, every other character is skipped on its own.
+fn balanced_scanner(m: &Model, ctx: &mut Ctx) {
+    use crate::eval::{Env, Evaluator, Val};
+    let Some(f) = m.fns.iter().find(|f| f.name == "take_until_unbalanced" && f.module.starts_with("lexer")) else {
+        ctx.fail_closed("C13.scan", "anchor not found: lexer::util::take_until_unbalanced");
+        return;
+    };
+    ctx.func(&f.key);
+    let consts = crate::rules::util::const_resolver(m);
+    let bounds = |st: &str, r: Option<&Val>| -> Result<(usize, usize), String> {
+        match r {
+            Some(Val::Ctor(n, p, _)) if n == "$range" => {
+                let lo = match &p[0] { Val::Int { v, .. } => *v as usize, _ => 0 };
+                let hi = match &p[1] { Val::Int { v, .. } => *v as usize, _ => st.len() };
+                Ok((lo, hi))
+            }
+            Some(Val::List(l)) => match (l.first(), l.last()) {
+                (Some(Val::Int { v: a, .. }), Some(Val::Int { v: b, .. })) => Ok((*a as usize, *b as usize + 1)),
+                _ => Ok((0, 0)),
+            },
+            o => Err(format!("slice argument {:?}", o.map(|x| x.show()))),
+        }
+    };
+    let hook = |_: &Evaluator, name: &str, a: &[Val]| -> Option<Result<Val, String>> {
+        match (name, a.first()) {
+            (".slice", Some(Val::Str(st))) => Some(bounds(st, a.get(1)).and_then(|(lo, hi)| {
+                if lo > hi || hi > st.len() || !st.is_char_boundary(lo) || !st.is_char_boundary(hi) {
+                    Err(format!("slice {}..{} of a {}-byte input is out of range or splits a character (the scanner would panic)", lo, hi, st.len()))
+                } else {
+                    Ok(Val::Str(st[lo..hi].to_string()))
+                }
+            })),
+            (".inner", Some(v)) | (".into_inner", Some(v)) | (".clone", Some(v)) if a.len() == 1 => Some(Ok(v.clone())),
+            (".unwrap_or_default", Some(Val::Ctor(n, _, _))) if n == "None" => Some(Ok(Val::Char('\0'))),
+            ("tag()", Some(Val::Str(t))) => match a.get(1) {
+                Some(Val::Str(input)) => Some(Ok(if input.starts_with(t.as_str()) { Val::Ctor("Ok".into(), vec![Val::Unit], BTreeMap::new()) } else { Val::Ctor("Err".into(), vec![Val::Unit], BTreeMap::new()) })),
+                _ => None,
+            },
+            _ => None,
+        }
+    };
+    let ev = Evaluator { consts: &consts, call_hook: &hook, inline: None };
+    let params: Vec<String> = f.sig.inputs.iter().filter_map(|a| match a { syn::FnArg::Typed(t) => Some(tok(&t.pat)), _ => None }).collect();
+    // oracle: consumed = text up to (not including) the closing tag that brings the nesting level to -1
+    let oracle = |text: &str, open: &str, close: &str| -> Option<usize> {
+        let mut level = 0i32;
+        let mut i = 0;
+        while i < text.len() {
+            if text[i..].starts_with(open) {
+                level += 1;
+                i += open.len();
+            } else if text[i..].starts_with(close) {
+                level -= 1;
+                if level == -1 {
+                    return Some(i);
+                }
+                i += close.len();
+            } else {
+                i += text[i..].chars().next().map(|c| c.len_utf8()).unwrap_or(1);
+            }
+        }
+        None
+    };
+    let texts = [
+        " plain */ rest",
+        " a /* nested */ b */ rest",
+        " 3.5\" */ x \"y\" */",
+        " the so-called \"magic number */ g \"hello\"",
+        " \"quoted */ inside\" */ after",
+        " -- dashes -- */ rest",
+        " é ü */ rest",
+        " /* /* deep */ */ */ rest",
+        " unterminated /* inner */",
+        " ends with opener /*",
+        "",
+        "*/",
+    ];
+    let mut n = 0;
+    for (open, close) in [("/*", "*/"), ("{", "}")] {
+        for text in texts {
+            let text = if open == "{" { text.replace("/*", "{").replace("*/", "}") } else { text.to_string() };
+            n += 1;
+            ctx.oblige("C13.scan", &format!("{}..{}:{:?}", open, close, text), true);
+            let mut env = Env::new();
+            env.insert(params.first().cloned().unwrap_or("opening_tag".into()), Val::Str(open.into()));
+            env.insert(params.get(1).cloned().unwrap_or("closing_tag".into()), Val::Str(close.into()));
+            let r = ev.eval_fn_body(&f.block, &mut env).and_then(|clo| match clo {
+                Val::Closure(cl, cenv) => ev.apply_closure(&syn::Expr::Closure(*cl), &[Val::Str(text.clone())], &cenv),
+                o => Err(format!("take_until_unbalanced returned {}", o.show())),
+            });
+            let want = oracle(&text, open, close);
+            match r {
+                Ok(Val::Ctor(ok, p, _)) if ok == "Ok" => {
+                    let (rest, consumed) = match p.first() {
+                        Some(Val::Tuple(t)) if t.len() == 2 => (t[0].clone(), t[1].clone()),
+                        _ => (Val::Unit, Val::Unit),
+                    };
+                    let got = match &consumed { Val::Str(c) => Some(c.len()), _ => None };
+                    let balanced_to_end = want.is_none() && got == Some(text.len());
+                    if got != want && !balanced_to_end {
+                        ctx.violate("C13.scan", "comment-end", &f.file, f.line,
+                            &format!("scanning {:?} for the `{}` that balances the comment stops after {:?} bytes (rest {}); the balancing `{}` is at byte {:?}: what is inside a comment (quotes, hyphens, other characters) must not influence where it ends", text, close, got, rest.show(), close, want));
+                        break;
+                    }
+                }
+                Ok(Val::Ctor(e, _, _)) if e == "Err" => {
+                    if want.is_some() {
+                        ctx.violate("C13.scan", "comment-end", &f.file, f.line, &format!("scanning {:?} fails although the balancing `{}` is at byte {:?}", text, close, want));
+                        break;
+                    }
+                }
+                Ok(o) => { ctx.fail_closed("C13.scan", &format!("[{:?}]: {}", text, o.show())); break }
+                Err(e) => { ctx.fail_closed("C13.scan", &format!("[{:?}]: {}", text, e)); break }
+            }
+        }
+    }
+    ctx.floor("C13.scan/texts", n, 20);
 }
